@@ -1462,11 +1462,14 @@ def comprehension(eng, n, st, kind):
         if isinstance(it, Raised):
             out.append((s, it))
             continue
+        if not isinstance(it, (VSeq, VTuple, VRef, VBytes)):
+            hk = eng.hooks.get("iter_to_seq")
+            sq = hk(eng, s, it) if hk is not None else None
+            if sq is not None:
+                it = sq
         if isinstance(it, VSeq):
             h = eng.hooks.get("seq_comprehension")
-            if h is None:
-                raise Unsupported("comprehension over a symbolic-length sequence")
-            out.extend(h(eng, n, s, kind, it))
+            out.extend(h(eng, n, s, kind, it) if h is not None else seq_comprehension_map(eng, n, s, kind, it))
             continue
         items = eng.iter_concrete(it, s)
         eng.push_frame(s, s.frames[-1], None, "<comp>")
@@ -1518,6 +1521,30 @@ def comprehension(eng, n, st, kind):
             else:
                 out.append((s1, make_dict(eng, s1, acc)))
     return out
+
+
+def seq_comprehension_map(eng, n, st, kind, it):
+    """`[elt for x in seq]` over a symbolic-length sequence, no filter: the element expression is evaluated once on an
+    arbitrary element; if that evaluation has exactly one outcome, raises nothing and changes no state, the result is a list
+    of the same length whose elements are left arbitrary (an over-approximation: callers learn the length only)."""
+    g = n.generators[0]
+    if kind != "list" or g.ifs:
+        raise Unsupported("comprehension over a symbolic-length sequence (only an unfiltered list comprehension is modelled)")
+    from .values import parse_ty
+    probe = st.clone()
+    eng.push_frame(probe, probe.frames[-1], None, "<comp>")
+    x = decode_elem(eng, probe, z3.Const(fresh_name("comp_elem"), it.e.sort().basis()), it.elem)
+    outs = []
+    for s2, r in eng.assign(g.target, x, probe):
+        if isinstance(r, Raised):
+            outs.append((s2, r))
+            continue
+        outs.extend(eng.ev(n.elt, s2))
+    if len(outs) != 1 or isinstance(outs[0][1], Raised):
+        raise Unsupported("comprehension over a symbolic-length sequence whose element expression may raise or fork")
+    res = z3.Const(fresh_name("comp"), z3.SeqSort(ObjS))
+    st.fact(z3.Length(res) == z3.Length(it.e))
+    return [(st, VRef(st.alloc(HObj("slist", None, {"e": res, "elem": parse_ty("obj[Any]")}))))]
 
 
 # ---------------------------------------------------------------------------
